@@ -101,6 +101,15 @@ func init() {
 					t.Recs[i].Body = pick(r, []string{"x", "lvl=warn", "", "a=1"})
 				}
 			}
+			// label sets whose unquoted rendering coincides: {q=x",r="y} vs {q=x, r=y}
+			if len(t.Recs) >= 2 && r.Intn(4) == 0 {
+				i, j := r.Intn(len(t.Recs)), r.Intn(len(t.Recs))
+				if i != j {
+					t.Recs[i].Attrs = [][2]string{{"q", "x\",r=\"y"}}
+					t.Recs[j].Attrs = [][2]string{{"q", "x"}, {"r", "y"}}
+					t.Recs[i].Body, t.Recs[j].Body = "x", "x"
+				}
+			}
 			n := len(t.Recs)
 			t.Limit = pick(r, []int{-1, -1, 0, 1, 2, n - 1, n, n + 1, -5})
 			return t
